@@ -390,8 +390,9 @@ class CommitGraph:
         for entry in sorted_entries:
             oid_lookup_data += hex_to_sha(entry.commit_id)
 
-        # Build commit data chunk
+        # Build commit data chunk (and the extra edge list for octopus merges)
         commit_data = b""
+        edge_data = b""
         # Create OID to index mapping for parent lookups
         oid_to_index = {entry.commit_id: i for i, entry in enumerate(sorted_entries)}
 
@@ -410,10 +411,19 @@ class CommitGraph:
                 parent1_pos = oid_to_index.get(entry.parents[0], GRAPH_PARENT_MISSING)
                 parent2_pos = oid_to_index.get(entry.parents[1], GRAPH_PARENT_MISSING)
             else:
-                # More than 2 parents - would need extra edge list chunk
-                # For now, just store first two parents
+                # More than 2 parents: the second slot points into the extra
+                # edge list, which holds all parents but the first.
                 parent1_pos = oid_to_index.get(entry.parents[0], GRAPH_PARENT_MISSING)
-                parent2_pos = oid_to_index.get(entry.parents[1], GRAPH_PARENT_MISSING)
+                parent2_pos = GRAPH_EXTRA_EDGES_NEEDED | (len(edge_data) // 4)
+                for parent in entry.parents[1:-1]:
+                    edge_data += struct.pack(
+                        ">L", oid_to_index.get(parent, GRAPH_PARENT_MISSING)
+                    )
+                edge_data += struct.pack(
+                    ">L",
+                    GRAPH_LAST_EDGE
+                    | oid_to_index.get(entry.parents[-1], GRAPH_PARENT_MISSING),
+                )
 
             commit_data += struct.pack(">LL", parent1_pos, parent2_pos)
 
@@ -441,30 +451,35 @@ class CommitGraph:
         header_size = (
             8  # signature + version + hash_version + num_chunks + base_graph_count
         )
-        toc_size = 4 * 12  # 4 entries (3 chunks + terminator) * 12 bytes each
+        num_chunks = 4 if edge_data else 3
+        toc_size = (num_chunks + 1) * 12  # chunks + terminator, 12 bytes each
 
         chunk1_offset = header_size + toc_size  # OID Fanout
         chunk2_offset = chunk1_offset + len(fanout_data)  # OID Lookup
         chunk3_offset = chunk2_offset + len(oid_lookup_data)  # Commit Data
-        terminator_offset = chunk3_offset + len(commit_data)
+        chunk4_offset = chunk3_offset + len(commit_data)  # Extra Edge List
+        terminator_offset = chunk4_offset + len(edge_data)
 
         # Write header
         f.write(COMMIT_GRAPH_SIGNATURE)
         f.write(struct.pack(">B", COMMIT_GRAPH_VERSION))
         f.write(struct.pack(">B", self.hash_version))
-        f.write(struct.pack(">B", 3))  # 3 chunks
+        f.write(struct.pack(">B", num_chunks))
         f.write(struct.pack(">B", 0))  # 0 base graphs
 
         # Write table of contents
         f.write(CHUNK_OID_FANOUT + struct.pack(">Q", chunk1_offset))
         f.write(CHUNK_OID_LOOKUP + struct.pack(">Q", chunk2_offset))
         f.write(CHUNK_COMMIT_DATA + struct.pack(">Q", chunk3_offset))
+        if edge_data:
+            f.write(CHUNK_EXTRA_EDGE_LIST + struct.pack(">Q", chunk4_offset))
         f.write(b"\x00\x00\x00\x00" + struct.pack(">Q", terminator_offset))
 
         # Write chunks
         f.write(fanout_data)
         f.write(oid_lookup_data)
         f.write(commit_data)
+        f.write(edge_data)
 
     def __len__(self) -> int:
         """Return number of commits in the graph."""
